@@ -56,3 +56,234 @@ T('c06-twin-rename', 'C06', 'cross.py',
   "        vals = f(I)\n        if vals is None:\n            info['stop'] = 'func'\n            return\n        info['m'] += len(I)\n        return np.array(vals, dtype=float)")
 T('c06-twin-budget-flipped', 'C06', 'cross.py',
   "info['m'] + len(I) > info['m_max']", "info['m_max'] < info['m'] + len(I)")
+
+
+# ------------------------------------------------------------------ C01
+M('c01-add-wrong-zero-block', 'C01', 'act_two.py',
+  "Z1 = np.zeros([r1_l, k, r2_r])", "Z1 = np.zeros([r2_l, k, r2_r])")
+M('c01-add-axis-last-core', 'C01', 'act_two.py',
+  "        elif i == len(n) - 1:\n            G = np.concatenate([G1, G2], axis=0)",
+  "        elif i == len(n) - 1:\n            G = np.concatenate([G1, G2], axis=2)")
+M('c01-mul-number-all-cores', 'C01', 'act_two.py',
+  "        Y = teneva.copy(Y2)\n        Y[0] *= Y1\n        return Y",
+  "        Y = teneva.copy(Y2)\n        for G in Y:\n            G *= Y1\n        return Y")
+M('c01-get-many-einsum-letter', 'C01', 'act_one.py',
+  "'...q, q...r -> ...r'", "'...q, r...q -> ...r'")
+M('c01-mean-einsum', 'C01', 'act_one.py',
+  "        Z = Z @ np.einsum('rmq,m->rq', Y[i], p)", "        Z = Z @ np.einsum('rmq,r->mq', Y[i], p)")
+M('c01-mul-reshape-kron', 'C01', 'act_two.py',
+  "        G = G1[:, None, :, :, None] * G2[None, :, :, None, :]\n        G = G.reshape([G1.shape[0]*G2.shape[0], -1, G1.shape[-1]*G2.shape[-1]])\n        Y.append(G)",
+  "        G = G1[:, None, :, :, None] * G2[None, :, :, None, :]\n        G = G.reshape([G1.shape[0]*G2.shape[0], -1, G1.shape[-1]])\n        Y.append(G)")
+M('c01-ranks-axis', 'C01', 'props.py',
+  "return np.array([1] + [G.shape[2] for G in Y], dtype=int)", "return np.array([1] + [G.shape[0] for G in Y], dtype=int)")
+M('c01-full-squeeze', 'C01', 'transformation.py',
+  "    if Z.shape[0] == 1:\n        Z = Z[0, ...]\n\n    if Z.shape[-1] == 1:\n        Z = Z[..., 0]\n\n    return Z",
+  "    return np.squeeze(Z)")
+M('c01-const-sign-all', 'C01', 'tensors.py',
+  "    Y = [np.ones([1, k, 1]) * v for k in n]\n    Y[-1] *= s\n\n    if I_zero",
+  "    Y = [np.ones([1, k, 1]) * v * s for k in n]\n\n    if I_zero")
+T('c01-twin-dot', 'C01', 'act_one.py',
+  "        Q = Q @ Y[k][:, i[k], :]", "        Q = np.dot(Q, Y[k][:, i[k], :])")
+T('c01-twin-einsum-letters', 'C01', 'act_one.py',
+  "np.einsum('rmq,m->rq', Y[i], p)", "np.einsum('amb,m->ab', Y[i], p)")
+T('c01-twin-add-rename', 'C01', 'act_two.py',
+  "            Z1 = np.zeros([r1_l, k, r2_r])\n            Z2 = np.zeros([r2_l, k, r1_r])\n            L1 = np.concatenate([G1, Z1], axis=2)\n            L2 = np.concatenate([Z2, G2], axis=2)",
+  "            pad_a = np.zeros((r1_l, k, r2_r))\n            pad_b = np.zeros((r2_l, k, r1_r))\n            L1 = np.concatenate((G1, pad_a), axis=-1)\n            L2 = np.concatenate((pad_b, G2), axis=-1)")
+
+# ------------------------------------------------------------------ C02 / C03
+M('c02-svdmode-give-r', 'C02', 'transformation.py', "give_to='l')", "give_to='r')")
+M('c02-no-norm-scaling', 'C02', 'transformation.py',
+  "            Z, p = orthogonalize(Y, d-1), 0\n            e = e / np.sqrt(d-1) * np.linalg.norm(Z[-1])",
+  "            Z, p = orthogonalize(Y, d-1), 0\n            e = e / np.sqrt(d-1)")
+M('c02-pivot-zero', 'C02', 'transformation.py',
+  "            Z, p = orthogonalize(Y, d-1), 0", "            Z, p = orthogonalize(Y, 0), 0")
+M('c02-e-not-squared', ['C02', 'C03'], 'svd.py',
+  "    where = np.where(np.cumsum(s[::-1]) <= e**2)[0]", "    where = np.where(np.cumsum(s[::-1]) <= e)[0]")
+M('c02-rank-paren', ['C02', 'C03'], 'svd.py',
+  "    rank = max(1, min(int(r), len(s) - dlen))", "    rank = max(1, min(int(r), len(s)) - dlen)")
+M('c02-r-not-forwarded', 'C02', 'transformation.py',
+  "            U, V = teneva.matrix_svd(G, e, r)", "            U, V = teneva.matrix_svd(G, e)")
+M('c02-addmany-final-no-r', 'C02', 'act_many.py',
+  "    return teneva.truncate(Y, e, r) if not teneva._is_num(Y) else Y", "    return teneva.truncate(Y, e) if not teneva._is_num(Y) else Y")
+M('c03-give-default', 'C03', 'svd.py', "        G, Z = matrix_skeleton(Z, e, r, give_to='r')", "        G, Z = matrix_skeleton(Z, e, r)")
+M('c03-gram-selector', ['C03', 'C02'], 'svd.py',
+  "    C = A @ A.T if m <= n else A.T @ A", "    C = A @ A.T if m < n else A.T @ A")
+M('c03-skeleton-l-swapped', 'C03', 'svd.py',
+  "        return U[:, :r] @ S, V[:r, :]\n\n    elif give_to == 'r':", "        return U[:, :r], S @ V[:r, :]\n\n    elif give_to == 'r':")
+M('c03-rank-floor', ['C03', 'C11'], 'svd.py',
+  "    r = max(1, min(int(r), len(s) - dlen))", "    r = min(int(r), len(s) - dlen)")
+T('c03-twin-selector-spelling', ['C02', 'C03', 'C11'], 'svd.py',
+  "    C = A @ A.T if m <= n else A.T @ A", "    C = A @ A.T if not (m > n) else A.T @ A")
+T('c02-twin-range-name', 'C02', 'transformation.py',
+  "    for k in range(d-1, 0, -1):\n        r1, n, r2 = Z[k].shape\n        G = teneva._reshape(Z[k], (r1, n * r2))",
+  "    for k in range(d-1, 0, -1):\n        ra, n, rb = Z[k].shape\n        r2 = rb\n        G = teneva._reshape(Z[k], (ra, n * rb))")
+
+# ------------------------------------------------------------------ C04 / C16
+M('c04-left-wrong-neighbour', 'C04', 'transformation.py',
+  "    G2 = R @ G2\n    Z[i+1] = teneva._reshape(G2, (G2.shape[0], n2, r3))",
+  "    G2 = R @ G2\n    Z[i] = teneva._reshape(G2, (G2.shape[0], n2, r3))")
+M('c04-guard-off-by-one', 'C04', 'transformation.py',
+  "    if i is None or i < 0 or i >= d-1:", "    if i is None or i < 0 or i > d-1:")
+M('c04-pivot-guard', 'C04', 'transformation.py',
+  "    if k is None or k < 0 or k > d-1:", "    if k is None or k < 0 or k > d:")
+M('c04-inplace-copy-dropped', ['C04', 'C09'], 'transformation.py',
+  "    Z = Y if inplace else teneva.copy(Y)\n\n    r1, n1, r2 = Z[i].shape\n    G1 = teneva._reshape(Z[i], (r1 * n1, r2))\n    Q, R = np.linalg.qr",
+  "    Z = Y\n\n    r1, n1, r2 = Z[i].shape\n    G1 = teneva._reshape(Z[i], (r1 * n1, r2))\n    Q, R = np.linalg.qr")
+M('c04-right-loop-range', 'C04', 'transformation.py',
+  "    for i in range(d-1, k, -1):\n        orthogonalize_right(Z, i, inplace=True)",
+  "    for i in range(d-1, k+1, -1):\n        orthogonalize_right(Z, i, inplace=True)")
+M('c16-corestab-sign', 'C16', 'core.py', "    return Q, p0 + p", "    return Q, p0 - p")
+M('c16-norm-half', 'C16', 'act_one.py',
+  "        return np.sqrt(v) if v > 0 else 0., p/2", "        return np.sqrt(v) if v > 0 else 0., p")
+M('c16-truncate-pd', 'C16', 'transformation.py', "            Z[k] *= 2**(p/d)", "            Z[k] *= 2**p")
+M('c16-accuracy-exponent', 'C16', 'act_two.py', "    c = 2.**(p1 - p2)", "    c = 2.**(p1 + p2)")
+M('c16-stab-wrong-core', ['C16', 'C04'], 'transformation.py',
+  "            Z[i+1], p = teneva.core_stab(Z[i+1], p)", "            Z[i], p = teneva.core_stab(Z[i], p)")
+M('c16-log-guard', 'C16', 'core.py',
+  "    if v_max <= thr:\n        return G, p0\n\n", "")
+M('c16-beam-scale-once', ['C16', 'C15'], 'optima.py',
+  "        Q = Q[ind, :] if l2r else Q[:, ind]\n\n        Q *= 2**p0\n", "        Q = Q[ind, :] if l2r else Q[:, ind]\n")
+T('c16-twin-pow', 'C16', 'core.py', "    Q = G / 2.**p", "    Q = G / (2.**p)")
+T('c04-twin-qr-mode', 'C04', 'transformation.py',
+  "    Q, R = np.linalg.qr(G1, mode='reduced')", "    Q, R = np.linalg.qr(G1)")
+
+# ------------------------------------------------------------------ C05 / C06 extra
+M('c05-drop-post-sweep-fold', ['C05', 'C06'], 'cross.py',
+  "                tau, dr_min, dr_max, tau0, k0, ltr=True)\n        Y[d-1] = np.tensordot(Y[d-1], R, 1)\n",
+  "                tau, dr_min, dr_max, tau0, k0, ltr=True)\n")
+M('c05-yold-alias', ['C05', 'C06'], 'cross.py', "        Yold = teneva.copy(Y)\n\n        R = np.ones((1, 1))\n        for i in range(d):\n            Z = (func",
+  "        Yold = Y\n\n        R = np.ones((1, 1))\n        for i in range(d):\n            Z = (func")
+M('c05-cache-order', 'C05', 'cross.py',
+  "    return np.array([cache[tuple(i)] for i in I], dtype=float)", "    return np.array([cache[tuple(i)] for i in I_new], dtype=float)")
+M('c05-stale-e', 'C05', 'cross.py',
+  "        info['nswp'] += 1\n        info['r'] = teneva.erank(Y)\n        info['e'] = teneva.accuracy(Y, Yold)",
+  "        info['nswp'] += 1\n        info['r'] = teneva.erank(Yold)\n        info['e'] = teneva.accuracy(Y, Yold)")
+
+# ------------------------------------------------------------------ C07
+M('c07-any-on-index', 'C07', 'als.py', "        if idx.size == 0:", "        if not idx.any():")
+M('c07-iface-out-index', 'C07', 'als.py',
+  "                contract('jk,kjl->jl', Yl[k], Y[k][:, i, :], out=Yl[k+1])", "                contract('jk,kjl->jl', Yl[k], Y[k][:, i, :], out=Yl[k])")
+M('c07-weights-one-side', 'C07', 'als.py',
+  "            AW = w[:, None] * A\n            AtA = A.T @ AW\n            Aty = AW.T @ y",
+  "            AW = w[:, None] * A\n            AtA = A.T @ AW\n            Aty = A.T @ y")
+M('c07-no-ridge', 'C07', 'als.py',
+  "        return sp.linalg.lstsq(AtA + lamb * np.identity(A.shape[1]), Aty,", "        return sp.linalg.lstsq(AtA, Aty,")
+M('c07-skip-validation', 'C07', 'als.py', "    if not allow_skip_cores:\n        for k in range(d):", "    if False:\n        for k in range(d):")
+M('c07-adaptive-give-to', 'C07', 'als.py',
+  "    V1, V2 = teneva.matrix_skeleton(Qs, e, r,\n        rel=True, give_to='r' if ltr else 'l')",
+  "    V1, V2 = teneva.matrix_skeleton(Qs, e, r,\n        rel=True, give_to='l' if ltr else 'r')")
+M('c07-w-not-forwarded', 'C07', 'als.py',
+  "            sol, residuals, rank, s = _lstsq(A, b, lamb=lamb,\n                w=w[idx] if w is not None else None, update_sol=None)",
+  "            sol, residuals, rank, s = _lstsq(A, b, lamb=lamb,\n                w=None, update_sol=None)")
+T('c07-twin-size-len', 'C07', 'als.py', "        if idx.size == 0:", "        if len(idx) == 0:")
+
+# ------------------------------------------------------------------ C08
+M('c08-accept-square', 'C08', 'maxvol.py', "    if n <= r:\n        raise ValueError('Input matrix should be \"tall\"')", "    if n < r:\n        raise ValueError('Input matrix should be \"tall\"')")
+M('c08-mask-late', 'C08', 'maxvol.py',
+  "        I[k] = i\n        S[i] = 0\n\n        v = B.dot(B[i])\n        l = 1. / (1 + v[i])\n        B = np.hstack([B - l * np.outer(v, B[i]), l * v.reshape(-1, 1)])\n        F = S * (F - l * v * v)",
+  "        v = B.dot(B[i])\n        l = 1. / (1 + v[i])\n        B = np.hstack([B - l * np.outer(v, B[i]), l * v.reshape(-1, 1)])\n        F = S * (F - l * v * v)\n        I[k] = i\n        S[i] = 0")
+M('c08-rect-guard', 'C08', 'maxvol.py', "    if r_min < r or r_min > r_max or r_max > n:", "    if r_min < r or r_max > n:")
+M('c08-dispatch-clamp', 'C08', 'utils.py', "    dr_max = min(dr_max, n - r)\n    dr_min = min(dr_min, dr_max)\n", "    dr_min = min(dr_min, dr_max)\n")
+M('c08-break-guard', 'C08', 'maxvol.py',
+  "        if np.abs(B[i, j]) <= e:\n            break\n\n        I[j] = i", "        I[j] = i")
+
+# ------------------------------------------------------------------ C09
+M('c09-truncate-no-copy', 'C09', 'transformation.py', "        Z, p = teneva.copy(Y), 0", "        Z, p = Y, 0")
+M('c09-mul-no-copy', 'C09', 'act_two.py', "    if teneva._is_num(Y2):\n        Y = teneva.copy(Y1)", "    if teneva._is_num(Y2):\n        Y = list(Y1)")
+M('c09-sub-no-copy', 'C09', 'act_two.py', "        Y2 = teneva.copy(Y2)\n        Y2[0] *= -1.", "        Y2 = list(Y2)\n        Y2[0] *= -1.")
+M('c09-outer-alias', 'C09', 'act_two.py', "    Y = teneva.copy(Y1)\n    Y.extend(teneva.copy(Y2))", "    Y = teneva.copy(Y1)\n    Y.extend(Y2)")
+M('c09-cdf-sort-inplace', 'C09', 'stat.py', "    x = np.array(x, copy=True)\n    x.sort()", "    x = np.asarray(x)\n    x.sort()")
+M('c09-optfunc-no-copy', 'C09', 'optima_func.py', "    A = teneva.copy(A)\n    for G in A:\n        G[:, 0, :] *= np.sqrt(2.)", "    for G in A:\n        G[:, 0, :] *= np.sqrt(2.)")
+M('c09-als-swap-no-copy', 'C09', 'als.py', "        I_trn = I_trn.copy()\n        rearrange", "        rearrange")
+M('c09-full-d-return-view', 'C09', 'act_one.py',
+  "    elif isinstance(Y, np.ndarray):\n        return Y.copy()", "    elif isinstance(Y, np.ndarray):\n        return Y")
+T('c09-twin-copy-comprehension', 'C09', 'transformation.py',
+  "        Z, p = teneva.copy(Y), 0", "        Z, p = [G.copy() for G in Y], 0")
+T('c09-twin-mul-expr', 'C09', 'act_two.py',
+  "        Y = teneva.copy(Y2)\n        Y[0] *= Y1\n        return Y", "        Y = teneva.copy(Y2)\n        Y[0] = Y[0] * Y1\n        return Y")
+
+# ------------------------------------------------------------------ C10
+M('c10-global-choice', ['C10', 'C14'], 'sample.py', "    I = np.vstack([rand.choice(np.arange(k), m) for k in n]).T", "    I = np.vstack([np.random.choice(np.arange(k), m) for k in n]).T")
+M('c10-info-not-reset', 'C10', 'als.py', "    info.update({'e': -1, 'e_vld': -1, 'nswp': 0, 'stop': None})", "    info.update({'e': -1, 'e_vld': -1, 'stop': None})\n    info.setdefault('nswp', 0)")
+M('c10-seed-not-forwarded', 'C10', 'sample.py', "            lhs_1 = sample_lhs(sh1, r, seed)\n            for n in range(rng):\n                for i in lhs_1:", "            lhs_1 = sample_lhs(sh1, r)\n            for n in range(rng):\n                for i in lhs_1:")
+M('c10-empty-conditional', 'C10', 'als.py', "    Q = np.zeros((Q1.shape[0], Q1.shape[1], Q2.shape[1], Q2.shape[2]))", "    Q = np.empty((Q1.shape[0], Q1.shape[1], Q2.shape[1], Q2.shape[2]))")
+M('c10-clock-in-result', 'C10', 'utils.py', "    info['t'] = tpc() - t\n", "    info['t'] = tpc() - t\n    if info['t'] > 60.:\n        info['stop'] = info['stop'] or 'nswp'\n")
+M('c10-new-rng', 'C10', 'tensors.py', "    rand = teneva._rand(seed)\n\n    def f(size):\n        return rand.normal(m, s, size=size)", "    rand = np.random.default_rng()\n\n    def f(size):\n        return rand.normal(m, s, size=size)")
+M('c10-set-iteration', 'C10', 'data.py', "    I_data = np.array([i for i in cache.keys()], dtype=int)", "    I_data = np.array([i for i in set(cache.keys())], dtype=int)")
+T('c10-twin-rand-name', 'C10', 'sample.py', "    rand = teneva._rand(seed)\n\n    I = np.vstack([rand.choice(np.arange(k), m) for k in n]).T", "    rng = teneva._rand(seed)\n\n    I = np.vstack([rng.choice(np.arange(k), m) for k in n]).T")
+
+# ------------------------------------------------------------------ C11
+M('c11-unguarded-reciprocal', 'C11', 'svd.py',
+  "    w_inv = np.divide(1., w, out=np.zeros_like(w), where=w > 0)\n    V = (w_inv[:, np.newaxis] * U.T) @ A if m <= n else U.T",
+  "    V = ((1. / w)[:, np.newaxis] * U.T) @ A if m <= n else U.T")
+M('c11-const-guard', ['C11', 'C19'], 'tensors.py', "    s = abs(v) / v if abs(v) > 1.E-16 else v\n    v = abs(v)**(1./d) if abs(v) > 1.E-16 else 1.\n    Y = [np.ones", "    s = abs(v) / v\n    v = abs(v)**(1./d)\n    Y = [np.ones")
+M('c11-accuracy-sentinel', 'C11', 'act_two.py', "    if np.isinf(c) or np.isinf(z1) or np.isinf(z2) or abs(z2) < 1.E-100:\n        return -1 # TODO: check\n\n", "")
+M('c11-orth-left-shape', ['C11', 'C04'], 'transformation.py', "    Z[i] = teneva._reshape(Q, (r1, n1, Q.shape[1]))", "    Z[i] = teneva._reshape(Q, (r1, n1, r2))")
+M('c11-truncate-reshape', ['C11', 'C02'], 'transformation.py', "        Z[k] = teneva._reshape(V, (-1, n, r2))", "        Z[k] = teneva._reshape(V, (r1, n, r2))")
+
+# ------------------------------------------------------------------ C12
+M('c12-rcond', 'C12', 'func.py', "            cond=rcond)[0]", "            rcond=rcond)[0]")
+M('c12-box-one-sided', 'C12', 'func.py', "            if np.max(a - X[i, :]) > 1.E-99 or np.max(X[i, :] - b) > 1.E-99:\n                continue\n\n        Q = np.einsum", "            if np.max(a - X[i, :]) > 1.E-99:\n                continue\n\n        Q = np.einsum")
+M('c12-sum-slice', 'C12', 'func.py', "        v = v @ (p[:(nk + 1)//2] @ y[:, ::2])", "        v = v @ (p[:nk//2] @ y[:, ::2])")
+M('c12-gets-einsum', 'C12', 'func.py', "        Z.append(np.einsum('riq,ij->rjq', A[k], T))", "        Z.append(np.einsum('riq,ji->rjq', A[k], T))")
+M('c12-sumfull-no-reject', 'C12', 'func_full.py', "    for k in range(d):\n        if abs(abs(b[k]) - abs(a[k])) > 1.E-16:\n            raise ValueError('This function works only for symmetric grids')\n", "")
+M('c12-diff-inplace-scale', 'C12', 'func.py', "            l = (2. / (b - a))**(i+1)\n            D_list.append(D * l)", "            D *= (2. / (b - a))**(i+1)\n            D_list.append(D)")
+
+# ------------------------------------------------------------------ C13
+M('c13-last-core-no-f0', 'C13', 'anova.py', "        core[0, :, 0] = self.f1_arr[self.d-1] + self.f0", "        core[0, :, 0] = self.f1_arr[self.d-1]")
+M('c13-middle-slot', 'C13', 'anova.py', "            core[1, :, 1] = 1.\n            core[0, :, 1] = self.f1_arr[i]", "            core[1, :, 1] = 1.\n            core[1, :, 0] = self.f1_arr[i]")
+M('c13-build-order', 'C13', 'anova.py', "        self.build_0(I_trn, y_trn)\n\n        if self.order >= 1:\n            self.build_1(I_trn, y_trn)\n        else:\n            self.f1 = []\n", "        if self.order >= 1:\n            self.build_1(I_trn, y_trn)\n        else:\n            self.f1 = []\n\n        self.build_0(I_trn, y_trn)\n")
+M('c13-f1-no-f0', 'C13', 'anova.py', "                value = np.mean(y_trn[idx]) - self.f0\n                f1_curr[x] = value", "                value = np.mean(y_trn[idx])\n                f1_curr[x] = value")
+M('c13-func-offset', 'C13', 'anova_func.py', "                idx[i] = pi + 1", "                idx[i] = pi")
+M('c13-order2-cap', 'C13', 'anova.py', "            cores = teneva.add_many([cores] + cores2_many, r=r)", "            cores = teneva.add_many([cores] + cores2_many)")
+
+# ------------------------------------------------------------------ C14
+M('c14-replace-true', 'C14', 'sample.py', "        I2 = rand.choice(k, m-len(I1), replace=False)", "        I2 = rand.choice(k, m-len(I1))")
+M('c14-p-not-normalised', 'C14', 'sample.py', "    p = np.maximum(p, 0)\n    p = p / p.sum()\n    ind = rand.choice", "    p = np.maximum(p, 0)\n    ind = rand.choice")
+M('c14-square-pivot', 'C14', 'sample.py', "    Z, p = teneva.orthogonalize(Y, 0, use_stab=True)\n\n    G = Z[0]\n    r1, n, r2 = G.shape\n\n    if float_cf", "    Z, p = teneva.orthogonalize(Y, d-1, use_stab=True)\n\n    G = Z[0]\n    r1, n, r2 = G.shape\n\n    if float_cf")
+M('c14-size-one-draw', 'C14', 'sample.py', "            i_cur = im[di] = rand.choice(n, p=norms)", "            i_cur = im[di] = rand.choice(n, size=1, p=norms)")
+M('c14-einsum-transposed', 'C14', 'sample.py', "        p = np.einsum('ma,aib,b->mi', phi[i-1], Y[i], phi[i+1])", "        p = np.einsum('ma,bia,b->mi', phi[i-1], Y[i], phi[i+1])")
+M('c14-clipped-marginal', 'C14', 'sample.py', "        phi[i] = np.sum(Y[i], axis=1) @ phi[i+1]", "        phi[i] = np.maximum(np.sum(Y[i], axis=1) @ phi[i+1], 0)")
+T('c14-twin-normalise-expr', 'C14', 'sample.py', "    norms = np.sum(Q**2, axis=1)\n    norms /= norms.sum()\n\n    ind = rand.choice(n, size=m", "    norms = np.sum(Q**2, axis=1)\n    norms = norms / norms.sum()\n\n    ind = rand.choice(n, size=m")
+
+# ------------------------------------------------------------------ C15
+M('c15-kron-order', 'C15', 'optima.py', "            I_l = np.kron(I, teneva._ones(n))", "            I_l = np.kron(teneva._ones(n), I)")
+M('c15-min-max-swapped', 'C15', 'optima.py', "    if y2 > y1:\n        return i1, y1, i2, y2", "    if y2 > y1:\n        return i2, y2, i1, y1")
+M('c15-value-from-z', 'C15', 'optima.py', "    i2, _ = optima_tt_max(Z, k)\n    y2 = teneva.get(Y, i2)", "    i2, y2 = optima_tt_max(Z, k)")
+M('c15-pivot-dir', 'C15', 'optima.py', "        Z, p = teneva.orthogonalize(Y, 0 if l2r else len(Y)-1, use_stab=True)", "        Z, p = teneva.orthogonalize(Y, len(Y)-1 if l2r else 0, use_stab=True)")
+M('c15-qtt-wrong-q', 'C15', 'optima.py', "    i_max = teneva.ind_qtt_to_tt(i_max, q)", "    i_max = teneva.ind_qtt_to_tt(i_max, q-1)")
+M('c15-reshape-order', 'C15', 'optima.py', "            Q = Q.reshape(-1, r2)", "            Q = Q.reshape(-1, r2, order='F')")
+
+# ------------------------------------------------------------------ C17
+M('c17-ravel-order', 'C17', 'grid.py', "        I[:, i] = np.ravel_multi_index(I_qtt_curr, n, order='F')", "        I[:, i] = np.ravel_multi_index(I_qtt_curr, n, order='C')")
+M('c17-merge-order', 'C17', 'core.py', "        G = np.tensordot(G, Q, 1)\n        G = teneva._reshape(G, (r1, -1, r2))", "        G = np.tensordot(G, Q, 1)\n        G = teneva._reshape(G, (r1, -1, r2), order='C')")
+M('c17-pow2-check', 'C17', 'core.py', "    if 2**d != n:\n        raise ValueError('Invalid mode size (it should be a power of two)')\n\n    A = teneva._reshape(G, (-1, r2))", "    A = teneva._reshape(G, (-1, r2))")
+M('c17-cap-not-forwarded', 'C17', 'core.py', "        A, V = teneva.matrix_svd(A, e, r)\n        Y.append", "        A, V = teneva.matrix_svd(A, e)\n        Y.append")
+M('c17-v0-dropped', 'C17', 'core.py', "    Y[0] = np.einsum('ijk,kl', Y[0], V0)\n", "")
+M('c17-block-offset', 'C17', 'grid.py', "        I_qtt[:, q*i:q*(i+1)] = I_qtt_curr", "        I_qtt[:, q*i+1:q*(i+1)+1] = I_qtt_curr")
+
+# ------------------------------------------------------------------ C18
+M('c18-uni-n', 'C18', 'grid.py', "        X = I / (n - 1) * (b - a) + a", "        X = I / n * (b - a) + a")
+M('c18-cheb-shift', 'C18', 'grid.py', "        X = np.cos(np.pi * I / (n - 1)) * (b - a) / 2 + (b + a) / 2", "        X = np.cos(np.pi * I / (n - 1)) * (b - a) / 2 + (b - a) / 2")
+M('c18-clamp-high-missing', 'C18', 'grid.py', "        Xsc[Xsc < -1.] = -1.\n        Xsc[Xsc > +1.] = +1.", "        Xsc[Xsc < -1.] = -1.")
+M('c18-clamp-bound', 'C18', 'grid.py', "    I[I > n-1] = n[I > n-1] - 1", "    I[I > n] = n[I > n] - 1")
+M('c18-kind-fallthrough', 'C18', 'grid.py', "        X = np.cos(np.pi * I / (n - 1)) * (b - a) / 2 + (b + a) / 2\n    else:\n        raise ValueError(f'Unknown grid type \"{kind}\"')", "        X = np.cos(np.pi * I / (n - 1)) * (b - a) / 2 + (b + a) / 2\n    else:\n        X = I")
+M('c18-opts-length', 'C18', 'grid.py', "            elif d != len(item):\n                raise ValueError('Invalid grid option')", "            elif d < len(item):\n                raise ValueError('Invalid grid option')")
+M('c18-poi-to-ind-cheb', 'C18', 'grid.py', "        I = np.arccos(Xsc) / np.pi * (n - 1)", "        I = np.arccos(Xsc) / np.pi * n")
+T('c18-twin-affine-rewrite', 'C18', 'grid.py', "        X = I / (n - 1) * (b - a) + a", "        X = a + (b - a) * I / (n - 1)")
+
+# ------------------------------------------------------------------ C19
+M('c19-delta-sign-core', 'C19', 'tensors.py', "    for k in range(d):\n        Y[k][0, i[k], 0] = v\n    Y[-1] *= s\n    return Y", "    for k in range(d):\n        Y[k][0, i[k], 0] = v * s\n    return Y")
+M('c19-poly-last', 'C19', 'tensors.py', "                G[:, m, 0] = np.array([_get(m, j) * scale, scale])", "                G[:, m, 0] = np.array([_get(m, j) * scale, 1.])")
+M('c19-poly-middle', 'C19', 'tensors.py', "                    [1., _get(m, j)],\n                    [0., 1.]])", "                    [1., _get(m, j)],\n                    [1., 0.]])")
+M('c19-rand-cut', 'C19', 'tensors.py', "        G = cores[ps[i]-1:ps[i+1]-1]", "        G = cores[ps[i]:ps[i+1]-1]")
+M('c19-index-range', 'C19', 'utils.py', "    if i >= n or i < -n:", "    if i > n or i < -n:")
+M('c19-bits-big-endian', 'C19', 'utils.py', "            ind.append(i % 2)\n            i = int(i / 2)", "            ind.insert(0, i % 2)\n            i = int(i / 2)")
+M('c19-vector-delta-all-cores', 'C19', 'vectors.py', "        G[0, ind[k], 0] = 1.\n        Y.append(G)\n    Y[-1][0, ind[-1], 0] = v", "        G[0, ind[k], 0] = v\n        Y.append(G)")
+M('c19-const-sign-np', ['C19', 'C01'], 'tensors.py', "    d = len(n)\n    s = abs(v) / v if abs(v) > 1.E-16 else v\n    v = abs(v)**(1./d) if abs(v) > 1.E-16 else 1.\n    Y = [np.ones", "    d = len(n)\n    s = np.sign(v)\n    v = abs(v)**(1./d) if abs(v) > 1.E-16 else 1.\n    Y = [np.ones")
+T('c19-twin-threshold-spelling', ['C19', 'C01', 'C11'], 'tensors.py', "    d = len(n)\n    s = abs(v) / v if abs(v) > 1.E-16 else v\n    v = abs(v)**(1./d) if abs(v) > 1.E-16 else 1.\n    Y = [np.ones", "    d = len(n)\n    s = abs(v) / v if abs(v) > 1e-16 else v\n    v = abs(v)**(1./d) if 1e-16 < abs(v) else 1.\n    Y = [np.ones")
+
+# ------------------------------------------------------------------ C20
+M('c20-3d-lstsq', 'C20', 'svd.py', "        M = np.array([teneva.get(Y_res[:mode], i, _to_item=False)[0]", "        M = np.array([teneva.get(Y_res[:mode], i, _to_item=False)")
+M('c20-mode-from-prev', 'C20', 'svd.py', "        n = shapes[mode]\n", "        n = shapes[mode-1]\n")
+M('c20-idx-length', 'C20', 'sample.py', "    I, idx, idx_many = [], [0], []", "    I, idx, idx_many = [], [], []")
